@@ -681,9 +681,18 @@ class Daemon(object):
             else:
                 ser.register_type_replacement(type(obj_or_class), _pyro_obj_to_auto_proxy)
         # register the object/class in the mapping
-        self.objectsById[obj_or_class._pyroId] = obj_or_class if not weak else weakref.ref(obj_or_class)
-        if weak: weakref.finalize(obj_or_class,self.unregister,objectId)
+        if weak:
+            ref = weakref.ref(obj_or_class)
+            self.objectsById[obj_or_class._pyroId] = ref
+            weakref.finalize(obj_or_class, self._unregister_collected, objectId, ref)
+        else:
+            self.objectsById[obj_or_class._pyroId] = obj_or_class
         return self.uriFor(objectId)
+
+    def _unregister_collected(self, objectId, ref):
+        """A weakly registered object was garbage collected: forget its id, unless that id designates something else by now."""
+        if self.objectsById.get(objectId) is ref:
+            del self.objectsById[objectId]
 
     def unregister(self, objectOrId):
         """
